@@ -117,6 +117,29 @@ def spine_case(rnd, a5, gen):
     return spine(rnd, a5, root, rr, depth, rnd.random() < 0.6), root
 
 
+def covered_twice(rnd, a5, gen):
+    """a set of sibling cells (k of the 12 faces, k of the 5 segments of a face, k of the 4 children of a cell) in which some
+    members are ALSO given through the complete set of their descendants one or two levels down (not an antichain): the covered
+    region is exactly the k siblings - nothing may be added for the absent ones"""
+    mode = rnd.random()
+    if mode < 0.5:
+        sibs = a5.cell_to_children(0, 0)
+    elif mode < 0.75:
+        sibs = a5.cell_to_children(rnd.choice(a5.cell_to_children(0, 0)))
+    else:
+        sibs = a5.cell_to_children(gen.random_cell(rnd, a5, rnd.randint(1, 27)))
+    k = rnd.choice((len(sibs), len(sibs) - 1, len(sibs) - 1, len(sibs) - 2))
+    present = rnd.sample(sibs, max(1, k))
+    out = list(present)
+    r0 = a5.get_resolution(present[0])
+    for c in rnd.sample(present, rnd.randint(1, min(3, len(present)))):
+        out.extend(a5.cell_to_children(c, min(29, r0 + rnd.randint(1, 2))))
+        if rnd.random() < 0.3:
+            out.remove(c)
+    rnd.shuffle(out)
+    return out
+
+
 def random_large(rnd, a5, gen, size_lo=300, size_hi=3000):
     """a big mixed-resolution set with many complete and almost complete sibling groups"""
     out = []
